@@ -1,0 +1,16 @@
+//go:build verif
+
+package fd
+
+import (
+	"github.com/bitly/go-simplejson"
+	"github.com/ozontech/file.d/pipeline"
+)
+
+// VerifExtractMatch turns an action's configuration (match_fields, match_mode, match_invert)
+// into the selector fields of ActionPluginStaticInfo exactly as setupAction does.
+// Verification-only (build tag `verif`).
+func VerifExtractMatch(actionJSON *simplejson.Json) (pipeline.MatchConditions, pipeline.MatchMode, bool, error) {
+	conds, err := extractConditions(actionJSON.Get("match_fields"))
+	return conds, extractMatchMode(actionJSON), extractMatchInvert(actionJSON), err
+}
